@@ -319,6 +319,46 @@ class Run:
         r = self.tlc(module, cfg, workers=workers, files=files, deque=deque, timeout=timeout, label=stage)
         return r
 
+    def tv(self, module, constants, trace_path, stage, n_traces, redrive=None, deque=False, timeout=1200, extra_cfg=""):
+        """Trace validation: TLC must consume the whole file. On rejection the first unconsumed line identifies the trace;
+        it is re-driven once from its recorded source (redrive(src_path, out_path)) and re-validated before it counts."""
+        c = cfg(constants=constants, constraint="Mark", postcondition="Accepted") + extra_cfg
+        r = self.tlc(module, c, workers=1, files={"trace.ndjson": "@" + trace_path}, deque=deque, timeout=timeout, label=stage)
+        text = r["text"]
+        m = re.search(r'<<"REJECTED-AT", (\d+), (\d+)>>', text)
+        if r["ok"] and not m:
+            self.traces += n_traces
+            return True
+        if not m:
+            if r.get("violated"):
+                raise Inconclusive("trace spec %s reported %s" % (module, r["violated"]))
+            raise Inconclusive("trace validation failed without a rejection point in %s" % stage)
+        at = int(m.group(1))
+        lines = open(trace_path).read().splitlines()
+        # the trace containing line `at` (1-based; at = first line that could not be consumed)
+        start = min(at, len(lines)) - 1
+        while start > 0 and '"e":"reset"' not in lines[start].replace(" ", ""):
+            start -= 1
+        end = start + 1
+        while end < len(lines) and '"e":"reset"' not in lines[end].replace(" ", ""):
+            end += 1
+        hdr = json.loads(lines[start])
+        bad_line = lines[at - 1] if at - 1 < len(lines) else "(end of trace: final state rejected)"
+        confirmed = True
+        if redrive is not None and hdr.get("src") is not None:
+            srcp = os.path.join(self.scratch, "redrive-%d.src" % self.n_tlc)
+            with open(srcp, "w") as f:
+                f.write(hdr["src"])
+            outp = os.path.join(self.scratch, "redrive-%d.ndjson" % self.n_tlc)
+            redrive(srcp, outp)
+            r2 = self.tlc(module, c, workers=1, files={"trace.ndjson": "@" + outp}, deque=deque, timeout=timeout, label=stage + ":confirm")
+            confirmed = bool(re.search(r'<<"REJECTED-AT"', r2["text"]))
+        self.violations.append(dict(why="recorded execution is not a behaviour of the specification: line %d of the trace (event %d of this execution) cannot be consumed" % (at, at - start),
+                                    shape="tv:" + module, case=dict(fam="trace", src=hdr.get("src"), header={k: v for k, v in hdr.items() if k not in ("dump", "src")}),
+                                    observed=dict(rejected_line=bad_line[:1500], previous_line=lines[at - 2][:1500] if at >= 2 else ""),
+                                    confirmed=confirmed, stage=stage))
+        return False
+
     # ---------------------------------------------------------------- finish
     def finish(self, findings):
         """Match confirmed violations against known findings, write evidence, print verdict lines, return exit code."""
